@@ -141,14 +141,14 @@ func genCase(t *rapid.T) Case {
 		b.Init = rapid.IntRange(0, 2).Draw(t, "init") == 0
 		c.Bufs = append(c.Bufs, b)
 	}
-	// rarely, on the DMA path: a large scratch buffer into whose every 64-byte
+	// rarely, on the DMA path: a large (96-192 pages) scratch buffer into whose every 64-byte
 	// line a first kernel stores, so that the cache flush of that GPU takes
 	// longer than the driver's fixed copy latency and than a small copy on
 	// another GPU
 	scratch := -1
 	if dma && rapid.IntRange(0, 5).Draw(t, "scratch") == 0 {
 		scratch = len(c.Bufs)
-		c.Bufs = append(c.Bufs, Buf{Size: pageSize * rapid.IntRange(80, 128).Draw(t, "scratch-pages"), Dev: rapid.IntRange(1, n).Draw(t, "scratch-gpu")})
+		c.Bufs = append(c.Bufs, Buf{Size: pageSize * rapid.IntRange(96, 192).Draw(t, "scratch-pages"), Dev: rapid.IntRange(1, n).Draw(t, "scratch-gpu")})
 	}
 	// kernels: in timing mode with magic copy every kernel hits finding C11-1
 	// (stores stay in the caches the direct path bypasses), so half of those
@@ -189,7 +189,7 @@ func genCase(t *rapid.T) Case {
 			r := Step{Kind: rapid.SampledFrom([]string{"d2h", "d2h", "d2h", "h2d"}).Draw(t, "scratch-op"), Q: s.Q, Buf: scratch,
 				Type: rapid.SampledFrom([]string{"u8", "u32", "i64"}).Draw(t, "type")}
 			size, es := c.Bufs[scratch].Size, elemSize[r.Type]
-			back := rapid.IntRange(es, size/4).Draw(t, "scratch-back")
+			back := rapid.IntRange(es, size/2).Draw(t, "scratch-back")
 			r.Off = size - back
 			r.Count = rapid.IntRange(1, min(back, 2*pageSize)/es).Draw(t, "scratch-count")
 			if r.Kind == "h2d" {
